@@ -10,6 +10,7 @@ from fractions import Fraction
 
 from harness import vlib
 from harness.fpgen import CLS, KINDS, POW2_BITS, attempt, dump_fp, gen_fp, gen_value, make_fp
+from harness import fpheap
 
 
 def variants(rng, f):
@@ -62,6 +63,7 @@ def content(d):
     return (d["kind"], d["bits"], d["level"], tuple(d["idx"]), tuple(map(tuple, d["cnt"])))
 
 
+@fpheap.with_heap_cases(("eq", "repr"), 150, 3000)
 class C09(vlib.Check):
     id = "C09"
     props_modules = ["E3fpVerif.Props.C09", "E3fpVerif.Props.C09Db"]
